@@ -518,6 +518,26 @@ def edit_in_place(G, inst):
         G.nodes[v].update(d)
 
 
+def funnel_instance(rng):
+    """m >= 3 branches s_i -> a_i -> v, each of weight w, merging into ONE edge v -> t that is under-weighted (w): the
+    closest flow RAISES v -> t by (m-1)*w, more than the largest weight of the input"""
+    m = rng.randint(3, 4)
+    integer = rng.random() < 0.6
+    w = rng.choice([1, 2, 3]) if integer else rng.choice([Fraction(1, 2), Fraction(3, 2), Fraction(2)])
+    edges, f = [], {}
+    for i in range(m):
+        for e in ((f"s{i}", f"a{i}"), (f"a{i}", "v")):
+            edges.append(e); f[e] = Fraction(w)
+        if rng.random() < 0.3:
+            e = (f"r{i}", f"s{i}"); edges.append(e); f[e] = Fraction(w)
+    edges.append(("v", "t")); f[("v", "t")] = Fraction(w)
+    rng.shuffle(edges)
+    nodes = sorted({x for e in edges for x in e}); rng.shuffle(nodes)
+    return {"nodes": nodes, "edges": [list(e) for e in edges], "origin": "edge", "weight_type": "int" if integer else "float",
+            "ignore": [], "scaling": [], "starts": [], "ends": [], "lambda": "0", "epsilon": None, "acyclic": True,
+            "flow": [[u, v, qstr(f[(u, v)])] for (u, v) in edges]}
+
+
 def reused_graph_cases(ctx, n, suite="K5.reused_graph_object"):
     """two or three models in a row on ONE graph object whose observations (and the models' ignore lists, scalings, starts
     and ends) change in between: every model has to answer for the graph as it is when the model is built"""
@@ -711,6 +731,8 @@ def run(ctx):
             inst["ends"] = rng.sample(inst["nodes"], 1)
         run_case(ctx, inst, suite="K5.cyclic_starts_ends")
     reused_graph_cases(ctx, ctx.n(60, 600))
+    for it in range(ctx.n(6, 40)):
+        run_case(ctx, funnel_instance(rng), suite="K5.funnel")
     # ignored edges that do not carry the attribute, with and without epsilon
     for it in range(ctx.n(150, 1500)):
         inst = gen_instance(rng, origin="edge", eps=rng.choice([None, "1/10", "1/4", "1/2"]))
@@ -740,6 +762,8 @@ def run(ctx):
 
 def search(ctx):
     rng = random.Random(1616)
+    for it in range(20):
+        run_case(ctx, funnel_instance(rng), suite="search.funnel")
     for d in ctx.disagreements[:10]:
         inp = d.get("input") or {}
         if isinstance(inp, dict) and "origin" in inp and "acyclic" in inp:
